@@ -146,9 +146,21 @@ Definition vaxis_modes (t : T.term) : bool :=
 
 (* The host resizes the emulator with T.resize (term.go resize): both screens are reallocated
    and the old PRIMARY screen is re-printed up to the cursor row, each cell with its own
-   style.  Everything emu_rel asks for survives (proofs/EmuResize.v) except the pen: resize
-   leaves the style of the last re-printed cell in it.  [resize_pen] is that style, computed
-   the way resize walks the old screen. *)
+   style; the pen is saved and restored (fix 63dc3f8), so everything emu_rel asks for survives
+   (proofs/EmuResize.v).  Before the fix resize left the style of the last re-printed cell in
+   the pen: [resize_leaky] is that resize, [resize_pen] the style it left, computed the way
+   resize walks the old screen. *)
+Definition resize_leaky (t : T.term) (w h : Z) : T.tres T.term :=
+  let old := T.t_prim t in
+  T.tbind (T.make_grid w h) (fun g =>
+  let last := T.t_row t in
+  let t := T.set_grids t g g false in
+  let t := T.set_margins t 0 (h - 1) (T.t_left t) (w - 1) in
+  let t := T.set_cursor t 0 0 in
+  let t := T.set_last t false in
+  let n0 := match old with [] => 0 | l :: _ => zlen l end in
+  T.tbind (T.reprint_rows n0 old 0 last t) (fun t => T.TOk (T.set_onalt t (T.m_smcup (T.t_md t))))).
+
 Definition last_style (cells : list T.tcell) (p : S.style) : S.style :=
   fold_left (fun _ c => T.c_st c) cells p.
 
@@ -168,8 +180,8 @@ Definition pen_showsb (p : S.style) (tp : tpen) (tl : tlink) : bool :=
   tpen_eqb (shown cp_full (to_rstyle p)) tp && tlink_eqb (shown_link (to_rstyle p)) tl &&
   (0 <=? S.attr (S.spen p)) && (S.attr (S.spen p) <? 256).
 
-(* the one clause of emu_rel a resize can break, as a decidable predicate on the emulator
-   state before the resize: the pen it leaves shows what the pen showed *)
+(* what the unfixed resize could break, as a decidable predicate on the state before it: the
+   pen it left shows what the pen showed *)
 Definition resize_pen_ok (t : T.term) : bool :=
   pen_showsb (resize_pen t) (shown cp_full (to_rstyle (T.t_pen t))) (shown_link (to_rstyle (T.t_pen t))).
 
@@ -182,9 +194,8 @@ Definition ref_resized (r : term) (t2 : T.term) : term :=
      tm_pen := tm_pen r; tm_link := tm_link r; tm_vis := tm_vis r; tm_shape := tm_shape r;
      tm_sync := tm_sync r; tm_mouse := tm_mouse r |}.
 
-(* the situation of a Vaxis application: it runs on the alternate screen (mode 1049 set) and the
-   primary screen underneath holds only cells in the default style - then the resize leaves a
-   default pen and [resize_pen_ok] is not needed *)
+(* the situation of a Vaxis application started in a fresh emulator: it runs on the alternate
+   screen (mode 1049 set) and the primary screen underneath holds only cells in the default style *)
 Definition cell_plainb (c : T.tcell) : bool := pen_showsb (T.c_st c) tpen0 ([], []).
 Definition alt_plainb (t : T.term) : bool :=
   T.t_onalt t && T.m_smcup (T.t_md t) && forallb (forallb cell_plainb) (T.t_prim t).
